@@ -27,7 +27,7 @@ import fam_docemit  # noqa: E402
 
 ID = "C18"
 COQ_PROP = "C18"
-FAMILIES = [(fam_docemit, 2500, 40000)]
+FAMILIES = [(fam_docemit, 2500, 30000)]
 TECHNIQUE = ("Coq proof (textwrap.fill model: width bound, word preservation, clean line edges, for every width and "
              "unbounded text; ReST prose re-join transparency; byte-identity of wrapped and unwrapped docstrings when "
              "nothing needs wrapping) + differential correspondence of DocEmit.v/Fill.v against the emitters at the "
@@ -217,7 +217,7 @@ def check_case(case):
 
 def oracle(rng, tier):
     widths = WIDTHS_QUICK if tier == "quick" else WIDTHS_THOROUGH
-    n = 110 if tier == "quick" else 500
+    n = 110 if tier == "quick" else 350
     batches = {}
     for w in widths:
         batches[w] = [gen_input(rng, w) for _ in range(n)]
